@@ -24,6 +24,7 @@ EXPLANATION = (
     "sweep over a sorted list tests a quantity that is a lower bound of that list's sort key, so nothing later in the "
     "list can still qualify; (R05.3) no set of protoclusters is iterated into an ordered result without a total "
     "order (family E, shared with C17); (R05.4) the closing sanity assertion and non-empty groups."
+    " R05.8: a protocluster contained in a hybrid group's core span joins every such group, and each group once (the addition depends on that group only and is idempotent)."
 )
 UNDECIDED = [
     "that the groups are exactly the transitive closures of the documented relations for all layouts",
